@@ -1,6 +1,6 @@
 #!/usr/bin/env python3
 """Translator: the Unicode case mappings of the toolchain's std (char::to_lowercase / to_uppercase for every scalar value outside ASCII), as
-two Coq tables keyed by UTF-8 byte sequences -> coq/generated/GenUnicase.v (on stdout).  The tables depend on the toolchain that compiles
+two Coq tables keyed by UTF-8 byte sequences, plus the two character classes of the final-sigma rule of str::to_lowercase as ranges of code points -> coq/generated/GenUnicase.v (on stdout).  The tables depend on the toolchain that compiles
 /repo, not on /repo's source; they are produced by compiling and running tools/unicase/unicase.rs with that toolchain and cached per
 `rustc --version`.  Fails closed: a toolchain without the dumper's output, a failed self-check of the dumper (per-character mapping against
 str::to_lowercase / to_uppercase in context) or an empty table is an error."""
@@ -32,3 +32,11 @@ print("From Coq Require Import List NArith. Import ListNotations. Open Scope N_s
 for name, T in (("lower_tab", L), ("upper_tab", U)):
     print("Definition %s : list (list N * list N) := [" % name)
     print(";\n".join("  (%s, %s)" % (lst(a), lst(b)) for _, a, b in T) + "].")
+# the two character classes of the final-sigma rule, as ranges of code points
+I = [l.split(" ") for l in lines if l.startswith("I ")]
+K = [l.split(" ") for l in lines if l.startswith("K ")]
+if len(I) < 100 or len(K) < 50:
+    sys.exit("gen_unicase: implausibly small class tables (%d, %d)" % (len(I), len(K)))
+for name, T in (("ci_ranges", I), ("cased_ranges", K)):
+    print("Definition %s : list (N * N) := [" % name)
+    print(";\n".join("  (%d, %d)" % (int(a), int(b)) for _, a, b in T) + "].")
